@@ -244,6 +244,7 @@ func (vt *Model) update(seq ansi.Sequence) {
 	defer vt.mu.Unlock()
 	defer vt.parser.Finish(seq)
 	defer vt.invalidate()
+	defer vt.clampCursor()
 	switch seq := seq.(type) {
 	case ansi.Print:
 		vt.print(seq)
@@ -298,6 +299,32 @@ func (vt *Model) update(seq ansi.Sequence) {
 		}
 	case ansi.APC:
 		vt.postEvent(EventAPC{Payload: seq.Data})
+	}
+}
+
+// clampCursor keeps the cursor on the screen. The column may equal the width
+// only while a wrap is pending (a character was just printed in the last
+// column); every other operation that cancels the pending wrap leaves the
+// cursor in the last column
+func (vt *Model) clampCursor() {
+	if vt.height() == 0 || vt.width() == 0 {
+		return
+	}
+	if vt.cursor.row < 0 {
+		vt.cursor.row = 0
+	}
+	if vt.cursor.row > row(vt.height()-1) {
+		vt.cursor.row = row(vt.height() - 1)
+	}
+	if vt.cursor.col < 0 {
+		vt.cursor.col = 0
+	}
+	max := column(vt.width() - 1)
+	if vt.lastCol {
+		max += 1
+	}
+	if vt.cursor.col > max {
+		vt.cursor.col = max
 	}
 }
 
